@@ -397,6 +397,8 @@ func runC15(c *Ctx) {
 			viewer = "param:" + fn.Params[1].Name()
 		}
 		s := newSumm(p, 1)
+		viewFn := fn
+		s.HelperInline = func(f *ssa.Function) bool { return privateHelper(viewFn, f) && len(findLoops(f)) == 0 }
 		paths, cut := s.Function(fn)
 		if cut != "" {
 			c.undecided("redaction", fnKey(fn), p.FnPos(fn), "summary cut: "+cut)
